@@ -107,6 +107,8 @@ def extra(ctx):
     wrong = 0
     for cid in ids:
         got = results.get(cid)
+        if ctx["cases"][cid]["cls"] != "good":
+            continue  # known-finding cases are judged by ./check itself
         if got is not None and got != ctx["cases"][cid]["spec"]:
             wrong += 1
             if wrong <= 3:
